@@ -3,6 +3,7 @@
    .cfg text by `Headers <- H_xxx` etc. (harness/<prop>.py).                                      *)
 EXTENDS AstEnum
 
+NoGates == {}
 I0 == NumI(0)  I1 == NumI(1)  I2 == NumI(2)  I3 == NumI(3)
 F15 == NumF("1.5", "1.5", 0, FALSE)
 F20 == NumF("2.0", "2", 2, TRUE)
@@ -72,4 +73,36 @@ M_BQ == << [M_B[1] EXCEPT !.max = 1], [M_B[2] EXCEPT !.max = 1], M_B[3] >>
 T_B == { G("g", <<Let("a")>>), G("g", <<Qb("q", Let("a"))>>), G("g", <<QI("r", 0)>>), G("g", <<QI("q", 0)>>),
          G("f", <<I2>>), G("h", <<RegA("r")>>), G("k", <<RegA("q"), I2>>) }
 O_B == { OLoop(Let("a"), FALSE) }
+
+\* ---------------------------------------------------------------- execution: structure (C12, C08)
+H_E == { Hdr(<<DLet("z", I0), DLet("t", I2)>>, <<DReg("q", I2)>>, <<>>, ExactGates) }
+M_E0 == <<>>
+M_E1 == << MD("m", <<"x">>, {"seq"}, { G("X", <<Par("x")>>) }, { OSub(I1) }, 2) >>
+T_E == { G("prepare_all", <<>>), G("measure_all", <<>>), G("X", <<QI("q", 0)>>) }
+T_E1 == T_E \cup { G("m", <<QI("q", 1)>>) }
+O_E == { OSeq, OPar, OLoop(I0, FALSE), OLoop(I2, FALSE), OLoop(Let("t"), FALSE), OLoop(I1, FALSE), OSub(I1) }
+
+\* ---------------------------------------------------------------- execution: gates (C03)
+H_G == { Hdr(<<DLet("k", I1), DLet("j", I2)>>, <<DReg("q", I3), DSlice("r", "q", I2, I0, NumI(-1)), DIndex("s", "q", I1)>>, <<>>, ExactGates) }
+M_G == << MD("m", <<"x", "y", "p">>, {"seq"}, { G("CX", <<Par("x"), Par("y")>>), G("R", <<Par("y"), Par("p")>>) }, {}, 2) >>
+T_G == { G("X", <<QI("q", 0)>>), G("H", <<QI("q", 1)>>), G("H", <<QI("q", 2)>>), G("S", <<QI("q", 1)>>),
+         G("CX", <<QI("q", 1), QI("q", 0)>>), G("CX", <<QI("q", 0), QI("q", 2)>>), G("SW", <<QI("q", 2), QI("q", 0)>>),
+         G("CCX", <<QI("q", 2), QI("q", 0), QI("q", 1)>>), G("F", <<QI("q", 1), QI("q", 2), QI("q", 0)>>),
+         G("R", <<QI("q", 0), Let("k")>>), G("CR", <<QI("q", 2), QI("q", 1), I3>>), G("Pf", <<QI("q", 2), F20>>),
+         G("N", <<QI("q", 0)>>), G("I_X", <<QI("q", 1)>>),
+         G("H", <<QI("r", 0)>>), G("CX", <<QAl("s"), QI("r", 0)>>), G("m", <<QI("q", 2), QI("q", 0), Let("j")>>) }
+O_G == { OSub(I1), OLoop(Let("j"), FALSE), OPar }
+\* deep gate sequences inside one subcircuit, asymmetric and parametrised gates on ordered tuples
+T_G2 == { G("H", <<QI("q", 0)>>), G("H", <<QI("q", 2)>>), G("S", <<QI("q", 2)>>), G("CX", <<QI("q", 0), QI("q", 1)>>),
+          G("CX", <<QI("q", 2), QI("q", 0)>>), G("F", <<QI("q", 2), QI("q", 0), QI("q", 1)>>),
+          G("CCX", <<QI("q", 1), QI("q", 2), QI("q", 0)>>), G("CR", <<QI("q", 0), QI("q", 2), Let("k")>>),
+          G("R", <<QI("r", 0), I3>>) }
+O_G2 == { OSub(I1) }
+
+\* ---------------------------------------------------------------- execution: parallel blocks (C13)
+H_P == { Hdr(<<>>, <<DReg("q", I3), DSlice("r", "q", I1, I3, None)>>, <<>>, ExactGates) }
+M_P == << MD("m", <<"x">>, {"seq"}, { G("X", <<Par("x")>>), G("CX", <<Par("x"), QI("q", 0)>>) }, {}, 1) >>
+T_P == { G("X", <<QI("q", 0)>>), G("X", <<QI("q", 1)>>), G("CX", <<QI("q", 1), QI("q", 2)>>), G("X", <<QI("r", 0)>>),
+         G("m", <<QI("q", 2)>>), G("I_X", <<QI("q", 0)>>), G("H", <<QI("r", 1)>>) }
+O_P == { OSub(I1), OPar, OSeq }
 =============================================================================
